@@ -300,22 +300,18 @@ pub fn judge(c: &Case, outs: &[Vec<Tok>]) -> Vec<String> {
                     let got: Vec<Id> = streams.iter().find_map(|st| match st { V::Array(p) if p.len() == 2 => match (&p[0], &p[1]) {
                         (V::Bulk(kb), V::Array(es)) if *kb == key => Some(es.iter().filter_map(|e| match e { V::Array(p) if p.len() == 2 => match &p[0] { V::Bulk(b) => pid(b), _ => None }, _ => None }).collect()), _ => None }, _ => None }).unwrap_or_default();
                     let (ids_now, known): (BTreeSet<Id>, bool) = match db.get(&key) { Some(e) => (e.ids.clone(), e.known), None => {
-                        // Redis answers NOGROUP for a key that does not exist; this server skips it silently
-                        fail(format!("class=xreadgroup-missing-key XREADGROUP on the missing key {:?} answered without an error", String::from_utf8_lossy(&key)));
+                        // a key that does not exist has no group: NOGROUP (d9160ac)
+                        fail(format!("XREADGROUP on the missing key {:?} answered without an error", String::from_utf8_lossy(&key)));
                         continue } };
                     let g = match db.get_mut(&key).and_then(|e| e.groups.get_mut(&gn)) { Some(g) => g, None => continue };
-                    // COUNT 0 = no limit (Redis); this server returns nothing then: class xreadgroup-count-zero
+                    // COUNT 0 = no limit (cc6cf30)
                     let limit = |v: Vec<Id>| -> Vec<Id> { match count { Some(Some(n)) if n > 0 => v.into_iter().take(n).collect(), _ => v } };
                     let exact = known && !g.uncertain && count != Some(None);
-                    // the ID u64::MAX-u64::MAX is the handler's internal marker for ">": it reads new entries instead of
-                    // the (necessarily empty) history after the greatest ID
-                    let marker = pid(&idarg) == Some((u64::MAX, u64::MAX));
-                    if marker && !got.is_empty() { fail(format!("class=xreadgroup-max-id-marker read with ID {} returned {:?}: nothing can be pending above the greatest ID", String::from_utf8_lossy(&idarg), got)); }
-                    if idarg == b">" || marker {
+                    // (7d40622: the greatest ID is an ordinary explicit ID, its history is empty)
+                    if idarg == b">" {
                         let want = limit(ids_now.iter().filter(|i| **i > g.cursor).cloned().collect());
-                        if exact && !marker && got != want {
-                            let class = if count == Some(Some(0)) && got.is_empty() { "class=xreadgroup-count-zero " } else { "" };
-                            fail(format!("{}> returned {:?}; the entries above the cursor {:?} are {:?}", class, got, g.cursor, want));
+                        if exact && got != want {
+                            fail(format!("> returned {:?}; the entries above the cursor {:?} are {:?}", got, g.cursor, want));
                         }
                         let mut prev: Option<Id> = None;
                         for i in &got {
@@ -336,8 +332,7 @@ pub fn judge(c: &Case, outs: &[Vec<Tok>]) -> Vec<String> {
                         let want = limit(g.pending.iter().filter(|(i, o)| **i > after && **o == cn).map(|(i, _)| *i).collect());
                         let want: Vec<Id> = want.into_iter().filter(|i| ids_now.contains(i)).collect();
                         if exact && got != want {
-                            let class = if count == Some(Some(0)) && got.is_empty() { "class=xreadgroup-count-zero " } else { "" };
-                            fail(format!("{}read with ID {} by {:?} returned {:?}; its pending entries above the ID are {:?}", class, String::from_utf8_lossy(&idarg), String::from_utf8_lossy(&cn), got, want));
+                            fail(format!("read with ID {} by {:?} returned {:?}; its pending entries above the ID are {:?}", String::from_utf8_lossy(&idarg), String::from_utf8_lossy(&cn), got, want));
                         }
                         g.consumers.insert(cn.clone());     // the reader is registered as a consumer
                     }
@@ -393,11 +388,7 @@ pub fn judge(c: &Case, outs: &[Vec<Tok>]) -> Vec<String> {
                     let want: Vec<(Id, Vec<u8>)> = g.pending.iter().filter(|(i, o)| st <= **i && **i <= en && (a.len() == 6 || **o == a[6])).map(|(i, o)| (*i, o.clone())).take(cnt).collect();
                     let got: Vec<(Id, Vec<u8>)> = rows.iter().filter_map(|r| match r { V::Array(p) if p.len() == 4 => match (&p[0], &p[1]) { (V::Bulk(i), V::Bulk(o)) => pid(i).map(|i| (i, o.clone())), _ => None }, _ => None }).collect();
                     if got != want {
-                        // with a consumer name the handler lists that consumer's entries and ignores the range
-                        let all_of: Vec<(Id, Vec<u8>)> = g.pending.iter().filter(|(_, o)| a.len() == 7 && **o == a[6]).map(|(i, o)| (*i, o.clone())).collect();
-                        let mut g2 = got.clone(); g2.sort();
-                        let class = if a.len() == 7 && g2.iter().all(|x| all_of.contains(x)) && g2.len() == all_of.len().min(cnt) { "class=xpending-consumer-range " } else { "" };
-                        fail(format!("{}XPENDING {:?}..{:?} count {} listed {:?}; the pending entries in the range are {:?}", class, st, en, cnt, got, want));
+                        fail(format!("XPENDING {:?}..{:?} count {} listed {:?}; the pending entries in the range are {:?}", st, en, cnt, got, want));
                     }
                 }
             }
